@@ -7,6 +7,7 @@ import (
 	"sort"
 	"strings"
 	"unicode/utf16"
+	"unicode/utf8"
 
 	"github.com/dlclark/regexp2/v2"
 	"github.com/dop251/goja/unistring"
@@ -377,6 +378,9 @@ func (r *regexp2Wrapper) findAllSubmatchIndexUTF16(s String, start, limit int, s
 				break
 			}
 			start = result.indexes[1]
+			if start == result.indexes[0] {
+				start++ // the search continues one code unit after an empty match
+			}
 		}
 
 		results = append(results, result)
@@ -463,6 +467,9 @@ func (r *regexp2Wrapper) findAllSubmatchIndexUnicode(s unicodeString, start, lim
 				break
 			}
 			start = result.indexes[1]
+			if next := groups[0].RuneIndex + 1; start == result.indexes[0] && next < len(posMap) {
+				start = posMap[next] // the search continues one code point after an empty match
+			}
 		}
 
 		results = append(results, result)
@@ -506,6 +513,11 @@ func (r *regexpWrapper) findAllSubmatchIndex(s string, limit int, sticky bool) [
 					return results[:i]
 				}
 				pos = result.indexes[1]
+				if pos == result.indexes[0] {
+					// the search continues one character after an empty match
+					_, size := utf8.DecodeRuneInString(s[pos:])
+					pos += size
+				}
 			}
 		}
 	}
